@@ -116,6 +116,7 @@ public:
 	bool active() const { return dev.kind != D_NONE && (dev.phase < 0 || dev.phase == cur_phase); }
 	bool Send(mpz_srcptr m, const size_t i, time_t to) override;
 	bool Send(const std::vector<mpz_srcptr> &m, const size_t i, time_t to) override;
+	bool Receive(std::vector<mpz_ptr> &m, size_t &i_out, const size_t sched, const time_t to) override;   // debugging probe only
 };
 
 // ------------------------------------------------------------------ world
@@ -126,6 +127,7 @@ struct World {
 	Rng netrng;
 	uint64_t dropped_mute = 0, delayed = 0;
 	std::vector<long> bcasts;                  // broadcasts per party (all phases)
+	std::function<void()> probe; long probe_at = -1;   // debugging aid: called once when the clock passes probe_at
 	World(size_t n_, uint64_t sseed) : n(n_), sched(sseed), uni(n_, &sched), bc(n_, &sched), bar(n_), mute(n_, false), bcasts(n_, 0) {
 		sched.use_vclock = true; sched.random_pick = true;
 		netrng.seed(sseed, 0xde1a);
@@ -137,6 +139,11 @@ struct World {
 		uni.fault = rule; bc.fault = rule;
 	}
 };
+
+inline bool DevUnicast::Receive(std::vector<mpz_ptr> &m, size_t &i_out, const size_t sched, const time_t to) {
+	if (W->probe && W->probe_at >= 0 && g_vtime >= W->probe_at) { W->probe_at = -1; W->probe(); }
+	return SimUnicast::Receive(m, i_out, sched, to);
+}
 
 inline bool DevUnicast::Send(mpz_srcptr m, const size_t i, time_t to) {
 	if (!is_bc && (dev.kind == D_WRONG_SHARE || dev.kind == D_BAD_REVEAL) && active() && i == dev.victim) {
